@@ -133,11 +133,12 @@ def validate_ingest_trace(v, trace, clauses, prop_engine="ingest"):
     n_traces, n_events, rejections, last = vlib.validate_traces("TraceIngest", "TraceIngest.cfg", trace, max_rejections=12)
     mine = 0
     for r in rejections:
-        if r["clause"] not in clauses:
-            continue
-        mine += 1
         ev = json.loads(r["event"])
         cfg = ev.get("cfg", {})
+        # "<clause>@<kind>" in clauses: the clause belongs to the caller for events of that kind only
+        if r["clause"] not in clauses and "%s@%s" % (r["clause"], cfg.get("kind", "?")) not in clauses:
+            continue
+        mine += 1
         v.violation("ingest/trace-%s/%s" % (r["clause"], cfg.get("kind", "?")),
                     dict(engine=prop_engine, mode="case", case={"seed": cfg.get("seed"), "kind": cfg.get("kind")},
                          scenario=find_case(r["trace"]),
